@@ -122,6 +122,10 @@ func WriteFindings(commits map[string]string) error {
 		fixed("D16", "C01", "D16", "wire.Struct(new(other.S), \"*\") with an unexported field: success reported, output does not compile", "C01", rawJSON(specD16())),
 		fixed("D18", "C01", "D16", "unexported provider function in a provider set of another package: success reported, output does not compile", "C01", rawJSON(specD18())),
 		fixed("D19", "C20", "D19", "`var S = wire.ProviderSet{}`: unchecked type assertion panics wire check / wire show", "C20 wire crashed", c20w("item", "wire.ProviderSet{}", "directvar")),
+		fixed("D13", "C17", "D13", "wire diff -header_file <unreadable> exited 1 (= differs) instead of 2 (= trouble)", "C17",
+			rawJSON(&CLICase{Pkgs: []cliPkg{{Name: "pa", Kind: "ok"}}, Steps: []CLIStep{{Op: "gen"}, {Op: "diff", Opts: cliOpts{Header: "unreadable"}}}})),
+		fixed("D22", "C17", "D22", "wire gen -header_file <valid> wrote a header-only wire_gen.go (no package clause) into packages without injectors", "C17",
+			rawJSON(&CLICase{Pkgs: []cliPkg{{Name: "pa", Kind: "noinj"}, {Name: "pb", Kind: "ok"}}, Steps: []CLIStep{{Op: "gen", Opts: cliOpts{Header: "valid"}}}})),
 		known("D15", "C20", "injector body with extra statements: the invalid-injector diagnostic of `wire gen` carries no file:line:col position (its text is pinned by golden file InvalidInjector of the repository's suite, so a repair would change an expected output)", "C20 failure without a positioned diagnostic",
 			rawJSON(&C20Case{Cat: "injector", Form: "func Inject() S { y := 1; _ = y; wire.Build(NewS); return S{} }", Import: "plain"})),
 		known("D20", "C13", "wire.InterfaceValue(new(I), f()) is accepted and the call is copied into the generated package-level variable (the repository's golden test InterfaceValue uses strings.NewReader(...) and pins acceptance)", "C13",
